@@ -83,22 +83,24 @@ theorem refine_callsC (P : Program) (nm : List String → String) (O : Oracle) (
       have hm : c.mapped = true := hmapped'.1
       have hd : c.disabled = none := hmapped'.2.1
       have hex := hmapped'.2.2.1
+      have hrt := runtime_not_treeOk st P.insOf node path self c cs sib _ hm htree
       generalize hr : node c.callee (path ++ [c.id]) (resolveBindsT st self sib (P.insOf c.callee) c) = r
       generalize hci : callIndicesT st self sib (P.insOf c.callee) c = ci at *
       have hsplitL : (staticCallsT st P.insOf node path self (c :: cs) sib []).2
           = [STree.sub c.id (ci.getD (false, [])).1 (ci.getD (false, [])).2
               (ci.isSome && !(ci.getD (false, [])).2.isEmpty &&
-                splitsStaticT st self sib (P.insOf c.callee) c (ci.getD (false, [])) && c.disabled.isNone) r.2] ++
+                splitsStaticT st self sib (P.insOf c.callee) c (ci.getD (false, [])) && c.disabled.isNone &&
+                noMergeOf c.id r.1.exp) r.2] ++
             (staticCallsT st P.insOf node path self cs
               (sib ++ [(c.id, unrolledOutputsT c (ci.getD (false, [])) r.1.exp)]) []).2 := by
-        simp only [staticCallsT, hm, if_true, hr, hci]
+        simp only [staticCallsT, hm, if_true, hr, hci, hrt, Bool.false_eq_true, if_false]
         rw [staticCallsT_acc]
         simp
       rw [hsplitL, flattenTList_append] at hstore
       rw [hsplitL, treeOkList_append, Bool.and_eq_true] at htree
       obtain ⟨htree1, htree2⟩ := htree
       simp only [treeOkList, treeOk, Bool.and_true, Bool.and_eq_true, Bool.not_eq_true'] at htree1
-      obtain ⟨⟨⟨⟨⟨hsome, hnonempty⟩, hss⟩, _⟩, habove⟩, htreeR⟩ := htree1
+      obtain ⟨⟨⟨⟨⟨⟨hsome, hnonempty⟩, hss⟩, _⟩, hnmg⟩, habove⟩, htreeR⟩ := htree1
       obtain ⟨hix1, hfacts⟩ := mapped_factsT st hst F hF ρ P (Agree forks) env self sib hrel f0 hf0 c hmapped'
         (ci.getD (false, [])) hss
       generalize hixs : (ci.getD (false, [])).2 = ixs at *
@@ -138,7 +140,7 @@ theorem refine_callsC (P : Program) (nm : List String → String) (O : Oracle) (
         cases ixs with
         | nil => exact absurd rfl hne
         | cons a l => exact ⟨a, by simp⟩
-      simp only [evalCalls, staticCallsT, hm, if_true, hr, hci, hixsP]
+      simp only [evalCalls, staticCallsT, hm, if_true, hr, hci, hixsP, hrt, Bool.false_eq_true, if_false]
       rw [evalCall_mappedC st F P.insOf run path forks env c .arr ixs hm hd hex hidx hne hmode]
       simp only
       have hout : unrolledOutputsT c (false, ixs) r.1.exp
@@ -154,14 +156,14 @@ theorem refine_callsC (P : Program) (nm : List String → String) (O : Oracle) (
         apply List.map_congr_left
         intro ix hix
         obtain ⟨k, rfl⟩ := hallI ix hix
-        rw [(pushFork_evalRT st hst F ρ hρ c.id k r.1.exp _ f (hchild _ hix).2.1).1]
+        rw [(pushFork_evalRT st hst F ρ hρ c.id k r.1.exp _ f (hchild _ hix).2.1 hnmg).1]
         exact (hchild _ hix).1 _ (hf.fset c.id (.i k) habove)
       have htyR : HasTyR st ⟨c.callee, 0, 1⟩ (.arr (ixs.map fun ix => pushFork c.id ix r.1.exp)) := by
         simp only [HasTyR]
         refine ⟨by simp, HasTyRList_map st _ _ _ ?_⟩
         intro ix hix
         obtain ⟨k, rfl⟩ := hallI ix hix
-        exact (pushFork_evalRT st hst F ρ hρ c.id k r.1.exp _ [] (hchild _ hix).2.1).2
+        exact (pushFork_evalRT st hst F ρ hρ c.id k r.1.exp _ [] (hchild _ hix).2.1 hnmg).2
       have hrel' := envRel_stepC st F ρ (Agree forks) env self sib hrel c.id ⟨c.callee, 0, 1⟩ _
         ⟨.arr (ixs.map fun ix => pushFork c.id ix r.1.exp), ⟨c.callee, 0, 1⟩⟩ hv htyR
       have hty : callTyM c = ⟨c.callee, 0, 1⟩ := by simp [callTyM, hm]
@@ -169,7 +171,7 @@ theorem refine_callsC (P : Program) (nm : List String → String) (O : Oracle) (
             (run c.callee (path ++ [c.id]) (forks ++ [(c.id, ix)])
               (mkArgs st F (argVals st env (P.insOf c.callee) c) (some ix))).2)
           = instsTList st F ρ forks f [STree.sub c.id false ixs
-              (ci.isSome && !ixs.isEmpty && splitsStaticT st self sib (P.insOf c.callee) c (false, ixs) && c.disabled.isNone) r.2] := by
+              (ci.isSome && !ixs.isEmpty && splitsStaticT st self sib (P.insOf c.callee) c (false, ixs) && c.disabled.isNone && noMergeOf c.id r.1.exp) r.2] := by
         intro f hf
         simp only [instsTList, instsT, List.append_nil]
         apply flatMap_congr_mem
@@ -180,7 +182,7 @@ theorem refine_callsC (P : Program) (nm : List String → String) (O : Oracle) (
             (run c.callee (path ++ [c.id]) (forks ++ [(c.id, ix)])
               (mkArgs st F (argVals st env (P.insOf c.callee) c) (some ix))).2))
         (sacc ++ [STree.sub c.id false ixs
-              (ci.isSome && !ixs.isEmpty && splitsStaticT st self sib (P.insOf c.callee) c (false, ixs) && c.disabled.isNone) r.2])
+              (ci.isSome && !ixs.isEmpty && splitsStaticT st self sib (P.insOf c.callee) c (false, ixs) && c.disabled.isNone && noMergeOf c.id r.1.exp) r.2])
         hrel' hsT (by rw [← hty]; simpa [typesOf] using hcs)
         (fun f hf => by rw [hacc f hf, hinst f hf, instsTList_append]) ⟨f0, hf0⟩
         (fun n hn => hstore n (by rw [hixsP, hout]; simp [hn]))
